@@ -37,6 +37,9 @@ def run(prog, R, tier="quick", only_rule=None):
     _c20.c20d(prog, R, rid="C02.h")
     c02i(prog, R)
     c02k(prog, R)
+    # files of versions that held snapshots still use are unlinked only through the deleted flag + Drop (C20.a/b)
+    from rules.props import c05 as _c05
+    _c05.c05c(prog, R, rid="C02.l")
     # files a held snapshot reads are never overwritten by a new file of the same id (id counters only move forward)
     from rules.props import c04 as _c04
     _c04.c04c(prog, R, rid="C02.j")
